@@ -26,7 +26,7 @@ fn describe() -> Describe {
         id: "C11",
         level: "model_checking",
         rule: "(a) every digraph (self-loops included) on n<=4 vertices over non-contiguous ids x every root; thorough adds all \
-               n=5 digraphs without self-loops; each compared with definitional brute-force oracles (dominance by vertex deletion, \
+               n=5 digraphs (self-loops included, 2^25 graphs); each compared with definitional brute-force oracles (dominance by vertex deletion, \
                all DFS runs enumerated for pre/post orders and DFS trees, T1/T2 reducibility, transitive closure). \
                (b) stateright BFS over ALL edit histories of insert/remove vertex/edge/remove_unreachable on ids {1,4,9}: the \
                search closes (state = Debug dump of the real Graph incl. both adjacency mirrors); in every reached state all views \
@@ -841,13 +841,14 @@ fn run(ctx: &Ctx) -> Acc {
         }
     }
     if ctx.tier.thorough() {
+        // every digraph on 5 vertices, self-loops included (2^25 graphs x 5 roots)
         let n = 5;
-        for mask in 0..(1u64 << 20) {
+        for mask in 0..(1u64 << 25) {
             unit += 1;
             if !ctx.mine(unit) {
                 continue;
             }
-            let rg = graph_from_mask(n, mask, false);
+            let rg = graph_from_mask(n, mask, true);
             grid_case(ctx, &rg, &mut acc);
         }
     }
